@@ -25,6 +25,7 @@ func nameSpaceEvaluation(
 	case t.IsClassIdentifier():
 		ctx.SetFrame(base.CalculateFrame(frame, parentClass))
 		t = base.MakeClass(t.ToString())
+		t.SetFrame(ctx.GetFrame())
 
 	case t.IsConstIdentifier():
 		ctx.SetFrame(base.CalculateFrame(frame, parentClass))
